@@ -640,7 +640,8 @@ func (x *emitExec) run(sc scenarioT) {
 			pan := guard(func() { err = e.Finalize() })
 			s := e.VerifState()
 			ev := map[string]interface{}{"k": "finalize", "id": id, "err": parseFinalizeErr(err), "code": ints(e.Bytes()),
-				"d8": mapU32s(s.DanglingS8), "d16": mapU32s(s.DanglingU16), "panic": pan != ""}
+				"d8": mapU32s(s.DanglingS8), "d16": mapU32s(s.DanglingU16), "panic": pan != "",
+				"after": map[bool]string{true: "append", false: ""}[appended]} // after an Append the outcome also speaks about C16
 			if pan != "" {
 				ev["err"] = map[string]interface{}{"class": "panic", "label": "", "from": 0, "to": 0, "text": pan}
 			}
